@@ -5,6 +5,7 @@
         key   = <hex of S | ->.<I>
         round = - | <key>.<rv>,<key>.<rv>,…        (draw of every key not listed is 0)
         event = c <count> | v <value> <count> | vs <count> <v,v,…> | m <cnt> <sum> <min> <max> <0|1>
+        counts and values are integers in units of 1/16, sums (field 2 of an aggregate) in units of 1/256; rv is a plain integer
   > ord <key>,<key>,…     another enumeration of the map (witness for map order / unstable sort ties)
   > fin <cap>
 -/
